@@ -129,10 +129,10 @@ def validate_traces(ctx, fam, cases, ex, label, selftest=False):
 def selftest_trace(ctx, fam, lines, consts, label):
     """Binding demonstration: one corrupted field in the middle of an accepted trace must be rejected at exactly that line."""
     rng = random.Random(ctx.seed)
-    cands = [i for i, ln in enumerate(lines) if '"ev": "proto_field"' in ln or '"ev": "server_decode"' in ln or '"ev": "client_decode"' in ln]
-    if not cands:
-        return
-    for pick in (cands[len(cands) // 2], rng.choice(cands)):
+    fields = [i for i, ln in enumerate(lines) if '"ev": "proto_field"' in ln]
+    decodes = [i for i, ln in enumerate(lines) if '"ev": "server_decode"' in ln or '"ev": "client_decode"' in ln]
+    picks = ([fields[len(fields) // 2]] if fields else []) + ([rng.choice(decodes)] if decodes else ([rng.choice(fields)] if fields else []))
+    for pick in picks:
         e = json.loads(lines[pick])
         if e["ev"] == "proto_field":
             e["number"] = e["number"] + 1
